@@ -2,6 +2,7 @@ package netsim
 
 import (
 	"fmt"
+	"net"
 	"os"
 	"sort"
 	"sync"
@@ -22,6 +23,11 @@ type NodeSpec struct {
 	// Addr overrides the node's "ip:port" (default NodeAddr(id)); nodes may
 	// share an IP on different ports.
 	Addr string `json:"addr,omitempty"`
+	// Host: the client is configured with this host name (and the node's
+	// port) instead of the node's IP literal; the simulated resolver maps
+	// the name to the node's IP.  Observations (IsBanned, connected) are
+	// still taken under the IP form.
+	Host string `json:"host,omitempty"`
 }
 
 // Event is something the scenario does at a given time after Start.
@@ -164,7 +170,18 @@ func RunScenario(s *Scenario, work string) *Result {
 			mainNodes = append(mainNodes, n)
 		}
 	}
-	cl, err := NewClient(dir, nt, nt.Addrs(), time.Duration(s.RetryMs)*time.Millisecond, false, ClientOpts{BanFault: s.BanStoreFault})
+	peers := nt.Addrs()
+	for i, spec := range s.Nodes {
+		if spec.Host != "" {
+			ip, port, err := net.SplitHostPort(peers[i])
+			if err != nil {
+				panic(err)
+			}
+			RegisterHost(spec.Host, net.ParseIP(ip))
+			peers[i] = net.JoinHostPort(spec.Host, port)
+		}
+	}
+	cl, err := NewClient(dir, nt, peers, time.Duration(s.RetryMs)*time.Millisecond, false, ClientOpts{BanFault: s.BanStoreFault})
 	if err != nil {
 		res.SetupErr = err.Error()
 		return res
